@@ -474,6 +474,48 @@ def rule_r9(ctx):
         raise AnalysisBroken("only %d locals pointing into messages found" % n)
 
 
+# ---------------------------------------------------------------------------
+# R10: taking bytes off the front of the header moves all that remains
+
+
+def rule_r10(ctx):
+    r = ctx.rule("C17.R10", "T11", "taking bytes off the front of the header moves all that remains: in nni_msg_header_trim and "
+                 "nni_msg_header_trim_u32 the memmove that closes the gap copies exactly the remaining header length in bytes "
+                 "(m_header_len after the decrement, or m_header_len - len before it) -- an element count or a constant moves "
+                 "too little once the header holds more entries: the backtrace of a request that came through four or more "
+                 "devices leaves the next device damaged and the reply is dropped", floor=2)
+    r.own_opinion = True
+    prog = ctx.prog
+    n = 0
+    for name in ("nni_msg_header_trim", "nni_msg_header_trim_u32"):
+        f = prog.need(name, "core/message.c")
+        mv = [c for c in f.calls(("memmove", "__builtin_memmove", "__builtin___memmove_chk", "memcpy"))]
+        if not mv:
+            raise AnalysisBroken("%s: the move that closes the gap vanished" % name)
+        decs = {(t.b, t.i) for t in f.assigns() if t.node["lhs"].get("k") == "mem" and t.node["lhs"]["f"] == "m_header_len"}
+        for c in mv:
+            n += 1
+            sz = f.expand(c.node["args"][2]) if len(c.node["args"]) > 2 else None
+            sz = G.resolve(f, sz, (c.b, c.i)) if sz is not None else None
+            while sz is not None and sz.get("k") == "cast":
+                sz = sz["e"]
+            after_dec = bool(decs) and f.dominated_by((c.b, c.i), blocked=lambda b, i, e: (b, i) in decs)
+            ok = False
+            if sz is not None and sz.get("k") == "mem" and sz["f"] == "m_header_len" and after_dec:
+                ok = True
+            if sz is not None and sz.get("k") == "bin" and sz.get("op") == "-" and sz["lhs"].get("k") == "mem" and \
+                    sz["lhs"]["f"] == "m_header_len" and not after_dec:
+                ok = True
+            if ok:
+                r.ob(f, "moves %s bytes" % show(sz))
+            else:
+                ctx.fail(r, f, "gap closed with the wrong number of bytes", c.line,
+                         "%s moves %s bytes (line %s), not the header length that remains: entries behind that are left where "
+                         "they were, and the header read back is not the header that was there" % (name, show(sz) if sz else "?", c.line))
+    if n < 2:
+        raise AnalysisBroken("only %d header moves found" % n)
+
+
 def run(ctx):
     ctx.guard(rule_r1)
     ctx.guard(rule_r2)
@@ -484,3 +526,4 @@ def run(ctx):
     ctx.guard(rule_r7)
     ctx.guard(rule_r8)
     ctx.guard(rule_r9)
+    ctx.guard(rule_r10)
